@@ -30,7 +30,12 @@ Record c10case := C10 {
   k_ctor_panic : bool;          (* NewStringMatch / NewTagHandler panicked *)
   k_called : bool;              (* the next handler's DispatchMetricMap was called *)
   k_out : list entry;
-  k_events_out : list (list str)
+  k_events_out : list (list str);
+  (* concurrent stream: further (input dump, next handler called, output dump) observations of the SAME
+     handler, made by several goroutines dispatching through it at the same time; the output of a
+     dispatch is a function of the handler configuration and the map only, so each is checked like
+     the first *)
+  k_extra : list (list entry * bool * list entry)
 }.
 
 Definition tab_ok (tab : list (str * option (list (str * bool)))) (p : str) : bool :=
@@ -63,7 +68,7 @@ Definition case_handler (c : c10case) : res tag_handler :=
 
 Definition oracle_complete (c : c10case) : bool :=
   let pats := omap regex_of (concat (map raw_patterns (case_raws c))) in
-  let subjects := concat (map entry_subjects (k_input c)) in
+  let subjects := concat (map entry_subjects (k_input c ++ concat (map (λ x, x.1.1) (k_extra c)))) in
   forallb (λ p, match assoc_str p (k_retab c) with
                 | None => false
                 | Some None => true
@@ -125,38 +130,44 @@ Definition events_ok (re : str → str → bool) (th : tag_handler) (ins outs : 
                     | _ => false
                     end) (combine ins outs).
 
+Definition map_ok (re : str → str → bool) (th : tag_handler) (input : list entry) (called : bool) (out : list entry) : bool :=
+  let m := map_of_entries input in
+  let ob := map_of_entries out in
+  (length input =? length (entries m))%nat
+  && (length out =? length (entries ob))%nat
+  && match dispatch re th m with
+     | Done None => negb called && (length out =? 0)%nat
+     | Done (Some mo) => called && out_ok re th m mo ob
+     | _ => false
+     end.
+
 Definition check_case (c : c10case) : bool :=
   let re := tab_match (k_retab c) in
   oracle_complete c &&
   match case_handler c with
   | Done th =>
-      let m := map_of_entries (k_input c) in
-      let ob := map_of_entries (k_out c) in
       negb (k_ctor_panic c)
-      && (length (k_input c) =? length (entries m))%nat
-      && (length (k_out c) =? length (entries ob))%nat
       && events_ok re th (k_events c) (k_events_out c)
-      && match dispatch re th m with
-         | Done None => negb (k_called c) && (length (k_out c) =? 0)%nat
-         | Done (Some mo) => k_called c && out_ok re th m mo ob
-         | _ => false
-         end
+      && map_ok re th (k_input c) (k_called c) (k_out c)
+      && forallb (λ x, map_ok re th x.1.1 x.1.2 x.2) (k_extra c)
   | GoPanic => k_ctor_panic c
   | OutOfFuel => false
   end.
 
 (* what the model computed: construction outcome (0 ok, 1 panic, 2 out of fuel), whether the
-   next handler is called, the output map, the event tags *)
-Definition explain_case (c : c10case) : nat * bool * list entry * list (list str) :=
+   next handler is called, the output map, the event tags; and for the concurrent stream the
+   positions in k_extra of the observations that are not the model's output *)
+Definition explain_case (c : c10case) : nat * bool * list entry * list (list str) * list N :=
   let re := tab_match (k_retab c) in
   match case_handler c with
   | Done th =>
       let evs := map (λ t, match dispatch_event th t with Done r => sort_tags r | _ => [] end) (k_events c) in
+      let badx := mismatches (λ x, map_ok re th x.1.1 x.1.2 x.2) (k_extra c) in
       match dispatch re th (map_of_entries (k_input c)) with
-      | Done (Some mo) => (0%nat, true, entries mo, evs)
-      | Done None => (0%nat, false, [], evs)
-      | _ => (3%nat, false, [], evs)
+      | Done (Some mo) => (0%nat, true, entries mo, evs, badx)
+      | Done None => (0%nat, false, [], evs, badx)
+      | _ => (3%nat, false, [], evs, badx)
       end
-  | GoPanic => (1%nat, false, [], [])
-  | OutOfFuel => (2%nat, false, [], [])
+  | GoPanic => (1%nat, false, [], [], [])
+  | OutOfFuel => (2%nat, false, [], [], [])
   end.
